@@ -285,10 +285,18 @@ class Program(object):
         except AnalysisError:
             return False
 
-    def all_funcs(self):
+    def all_funcs(self, include_new=False):
+        """Functions of the analysed tree.  By default only those of the reference inventory (sa/known.py): a function
+        that is not listed there is new code, which the summariser evaluates *in place* at its call sites, so the rules
+        judge it as part of its callers and not a second time as a free-standing function with unconstrained
+        parameters.  Purity / dynamic-code rules pass include_new=True."""
+        from .known import KNOWN_FUNCS
+
         out = []
         for n in sorted(self.modules):
-            out.extend(self.modules[n].all_funcs())
+            for f in self.modules[n].all_funcs():
+                if include_new or f.qual in KNOWN_FUNCS:
+                    out.append(f)
         return out
 
     def resolve_import(self, module, alias):
